@@ -338,11 +338,20 @@ def run_handoff(rep, facts):
             (rep.ok if i["status"] == "ok" else rep.violation)("R7.5", i["instance"], i["detail"], i["loc"])
 
 
+def run_compaction(rep, facts):
+    from . import c12
+    rep.rule("R7.6", "while draining to a record boundary (and in every in-request read) the buffer is compacted before reading, so a handler that left a large record unread cannot make close() fail for lack of buffer space")
+    g, ev = common.build(facts, RUN)
+    n = c12.check_compaction(rep, g, ev, "run", rule="R7.6")
+    rep.floor("R7.6", "in-request reads reachable from run", n, 2)
+
+
 def main(rep, tier):
     import check
     import facts as F
     f = F.load(("async", "http"))
     check.guard(rep, "R7.5", run_handoff, f)
+    check.guard(rep, "R7.6", run_compaction, f)
     rep.configs.append({"features": "async,http", "profile": "debug", "bodies": len(f.bodies)})
     check.guard(rep, "R7", run, f)
     import check as _c
